@@ -267,7 +267,7 @@ def judge_c09(spec, gs, tbs, inputs, diags, dumps, maps, tdiffs, byk, jobs, info
         tb = tbs[gi]
         for idx, data in enumerate(inputs[gi]):
             exs = {}
-            for mode, opt in ((0, (True, True)), (4, (True, True)), (8, (True, False)), (9, (False, False))):
+            for mode, opt in ((0, (True, True)), (3, (True, True)), (4, (True, True)), (8, (True, False)), (9, (False, False))):
                 r = byk.get((gi, idx, mode))
                 if r is None: continue
                 if opt not in exs: exs[opt] = model.expect(g, tb, data, skip_ws=opt[0], skip_nl=opt[1])
@@ -298,7 +298,7 @@ def judge_c09(spec, gs, tbs, inputs, diags, dumps, maps, tdiffs, byk, jobs, info
 def judge_c10(spec, gs, tbs, inputs, diags, dumps, maps, tdiffs, byk, jobs, info, out):
     C = out['counts']
     crash_check('C10', gs, jobs, byk, info, out, 'site:parse@crash')
-    OPT = {0: (True, True), 7: (False, True), 8: (True, False), 9: (False, False)}
+    OPT = {0: (True, True), 3: (True, True), 4: (True, True), 7: (False, True), 8: (True, False), 9: (False, False)}     # 3: string_view_buffer (raw pointer iterators), 4: user buffer
     for gi, g in enumerate(gs):
         C['grammars'] += 1
         if not parseable(gi, gs, tbs, diags, tdiffs, need_match=False): C['grammars_skipped'] += 1; continue
